@@ -4,10 +4,14 @@ CONSTANTS
   NN = 0
   MaxPN = 1
   MaxPC = 0
+  MaxStray = 0
   UseWriteMu = TRUE
   ChanCap = 1
   RegisterFirst = TRUE
+  AtomicAlloc = TRUE
+  IdDecode = "strict"
+  IdVocab = "small"
 SPECIFICATION Spec
-INVARIANTS Matched
+INVARIANTS Matched UniqueIds
 PROPERTIES CallsReturn
 CHECK_DEADLOCK FALSE
